@@ -1,7 +1,7 @@
 (* area gkdi: dispatch table of model units for the correspondence checks of C11 and C03. *)
 From Coq Require Import String.
 From V Require Import Prelude.Base Prelude.Val.
-From V Require Import Model.Types Model.Crypto Model.KeyId Model.Gkdi Model.GkdiView Spec.GkdiLayout.
+From V Require Import Model.Types Model.Crypto Model.Sym Model.KeyId Model.Gkdi Model.GkdiView Model.Kek Spec.GkdiLayout.
 
 Definition on {A} (dec : val -> option A) (f : A -> val) (a : val) : val :=
   match dec a with Some x => f x | None => bad end.
@@ -27,6 +27,67 @@ Definition u_ndr_reply (a : val) : val :=
     | Some b => VL [VB b; vres val_of_env (GetKey_unpack_response b)]
     | None => VN
     end
+  | _ => bad
+  end.
+
+(* ---- C03: KEK derivation under the symbolic crypto ---- *)
+Definition hash_of_id (i : Z) : option hash :=
+  if i =? 1 then Some SHA1 else if i =? 2 then Some SHA256 else if i =? 3 then Some SHA384
+  else if i =? 4 then Some SHA512 else None.
+Definition u_kek_get (a : val) : val :=
+  match a with
+  | VL [ev; kv] =>
+    match env_of_val ev, kid_of_val kv with
+    | Some e, Some k => vres VB (get_kek sym e k)
+    | _, _ => bad
+    end
+  | _ => bad
+  end.
+Definition val_of_new (r : bytes * key_identifier) : val := VL [VB (fst r); val_of_kid (snd r)].
+Definition u_kek_new (a : val) : val :=
+  match a with
+  | VL [ev; VB rnd] =>
+    match env_of_val ev with
+    | Some e => VL [vres val_of_new (new_kek_rnd sym e rnd); vres VI (new_kek_rnd_len e)]
+    | None => bad
+    end
+  | _ => bad
+  end.
+(* both sides: new_kek on the encrypting side's envelope, get_kek on the seed-holding side *)
+Definition u_kek_agree (a : val) : val :=
+  match a with
+  | VL [ev_enc; ev_dec; VB rnd] =>
+    match env_of_val ev_enc, env_of_val ev_dec with
+    | Some ee, Some ed =>
+      match new_kek_rnd sym ee rnd with
+      | Ok (kek, kid) => VL [VB kek; val_of_kid kid; vres VB (get_kek sym ed kid)]
+      | Raise x => VE x
+      end
+    | _, _ => bad
+    end
+  | _ => bad
+  end.
+Definition u_kek_compute (a : val) : val :=
+  match a with
+  | VL [VI hid; VS alg; VB priv; VB pub] =>
+    match hash_of_id hid with
+    | Some h => vres VB (compute_kek sym h alg [] priv pub)
+    | None => bad
+    end
+  | _ => bad
+  end.
+Definition u_kek_from_pub (a : val) : val :=
+  match a with
+  | VL [VI hid; VB seed; VS alg; VB pub; VI plen] =>
+    match hash_of_id hid with
+    | Some h => vres VB (compute_kek_from_public_key sym h seed alg [] pub plen)
+    | None => bad
+    end
+  | _ => bad
+  end.
+Definition u_kek_pubkey (a : val) : val :=
+  match a with
+  | VL [VS alg; VB priv; VB peer] => vres VB (compute_public_key sym alg [] priv peer)
   | _ => bad
   end.
 
@@ -57,7 +118,9 @@ Definition units : list (string * (val -> val)) :=
     ("ffk.layout", on ffk_of_val (fun k => vobytes (layout FFCDHKey_table (spec_of_ffk k))));
     ("eck.pack", on eck_of_val (fun k => vres VB (ECDHKey_pack k)));
     ("eck.unpack", onb (fun b => vres val_of_eck (ECDHKey_unpack b)));
-    ("eck.layout", on eck_of_val (fun k => vobytes (layout ECDHKey_table (spec_of_eck k)))) ].
+    ("eck.layout", on eck_of_val (fun k => vobytes (layout ECDHKey_table (spec_of_eck k))));
+    ("kek.get", u_kek_get); ("kek.new", u_kek_new); ("kek.agree", u_kek_agree);
+    ("kek.compute", u_kek_compute); ("kek.from_pub", u_kek_from_pub); ("kek.pubkey", u_kek_pubkey) ].
 
 Fixpoint lookup (n : string) (l : list (string * (val -> val))) : option (val -> val) :=
   match l with
